@@ -108,6 +108,15 @@ def backend_class():
                     mod.for_stmt = f_for_stmt
                     self._extra_locals = {'ag__': mod}
                 return self._extra_locals
+
+            def transform_ast(self, node, ctx):
+                out = api.PyToPy.transform_ast(self, node, ctx)
+                try:
+                    from malt.pyct import parser
+                    self.last_source = parser.unparse(out, include_encoding_marker=False)
+                except Exception as e:     # never let the recording change the conversion
+                    self.last_source = 'UNPARSE-ERROR %r' % (e,)
+                return out
         _BACKEND['cls'] = TracingPyToPy
     return _BACKEND['cls']
 
@@ -120,7 +129,16 @@ def convert_tracing(fn):
     opts = converter.ConversionOptions(recursive=False, user_requested=True, optional_features=None)
     ctx = converter.ProgramContext(options=opts)
     converted, module, source_map = t.transform(fn, ctx)
+    converted.__c02_source__ = getattr(t, 'last_source', None)
     return converted
+
+
+def same_generated_code(native_source, tracing_source):
+    """The two conversions of one function differ only in the embedded options (recursive=False for the tracing one)."""
+    if native_source is None or tracing_source is None:
+        return False
+    norm = lambda s: s.replace('recursive=False', 'recursive=True').replace('internal_convert_user_code=False', 'internal_convert_user_code=True')
+    return norm(native_source) == norm(tracing_source)
 
 
 # ------------------------------------------------------------------------------------------------
